@@ -110,14 +110,15 @@ def families(tier):
         # both kinds of environment with keys at once: the other kind must never matter
         fams.append(family_cfg("cross", sels=("unset", "name", "none"), interps=(True,), namedD=["BASE", "PATH", "DEFAULTS"], namedP=["CH", "DEFAULTS"],
                                pkgD=["BASE", "DEFAULTS"], pkgP=["PATH", "CH"], dlists=[["BASE", "PATH"], ["IMP"]]))
-    # the replicated configuration (what tasks run with) is built for every family in the thorough tier; in the quick tier for
-    # the name family and for a family of its own with both kinds of environment layered over both platforms
+    # the replicated configuration (what tasks run with) is also built for the name family and a family of its own (quick) and in
+    # addition for the named-environment families (thorough); the other families use the configuration as loaded only
     fams.append(family_cfg("replicated", sels=("NaMe", "unset") + (("none",) if th else ()), interps=(False,), namedD=["BASE", "PATH", "DEFAULTS"],
                            namedP=["PATH", "LD_LIBRARY_PATH", "DEFAULTS"], pkgD=["BASE"], pkgP=["PATH"] if th else [],
                            creatable=("named@default", "named@p1", "pkg@default") + (("pkg@p1",) if th else ()), dlists=[["BASE", "PATH"], ["IMP"]]))
-    if not th:
+    both = ("names", "replicated") if not th else ("names", "replicated", "named-keys", "named-empties", "defaults-orders", "defaults-empties")
+    if True:
         for f in fams:
-            if f["name"] not in ("names", "replicated"):
+            if f["name"] not in both:
                 f["text"] = f["text"].replace('Paths = {"primitive", "replicated"}', 'Paths = {"primitive"}')
     return fams
 
